@@ -24,6 +24,57 @@ theorem count_ge_two (num den : Nat) (h : 0 < num) (hlt : num < den) : 2 ≤ cou
   have := (count_spec num den 1 h).mpr (by omega)
   omega
 
+/-- **The float `arange` length against the rational count** (pass 3): the number of samples per unit step the
+code actually uses, `floatLen = ⌈fl64(1/interval)⌉` (`rn53` = IEEE round-to-nearest-even of the quotient), never
+exceeds the number of multiples of the interval in `[0,1)` and falls short of it by at most one — for every positive
+`interval = num/den`. (The harness checks `floatLen` against the implementation *exactly*.) -/
+theorem floatLen_le_count (num den : Nat) (h : 0 < num) :
+    floatLen num den ≤ count num den ∧ count num den ≤ floatLen num den + 1 := by
+  unfold floatLen rn53
+  exact floatLen_bounds_at num den _ h
+
+/-- it falls short only when the rounded quotient is an integer below the true quotient: if `⌈fl64(q)⌉ ≠ ⌈q⌉` then
+`fl64(q) ≤ ⌈q⌉ - 1 < q`, i.e. `q = 1/interval` was rounded down onto (or below) an integer -/
+theorem floatLen_lt_count_iff (num den : Nat) (h : 0 < num) (hne : floatLen num den ≠ count num den) :
+    floatLen num den + 1 = count num den ∧
+      (rn53 num den).1 ≤ (count num den - 1) * 2 ^ (rn53 num den).2 ∧ (count num den - 1) * num < den := by
+  obtain ⟨h1, h2⟩ := floatLen_le_count num den h
+  have hlt : floatLen num den + 1 = count num den := by omega
+  refine ⟨hlt, ?_, ?_⟩
+  · -- m ≤ (c-1)·2^s  ⇐  ceil(m/2^s) ≤ c-1
+    have hc : ceilShift (rn53 num den).1 (rn53 num den).2 = count num den - 1 := by
+      unfold floatLen at hlt; omega
+    unfold ceilShift at hc
+    have hP : 0 < 2 ^ (rn53 num den).2 := Nat.pow_pos (by norm_num)
+    have := Nat.div_mul_le_self ((rn53 num den).1 + 2 ^ (rn53 num den).2 - 1) (2 ^ (rn53 num den).2)
+    have hlt2 := Nat.lt_div_mul_add hP (a := (rn53 num den).1 + 2 ^ (rn53 num den).2 - 1)
+    rw [hc] at this hlt2
+    omega
+  · have hpos : 0 < count num den := by omega
+    have := (count_spec num den (count num den - 1) h).mp (by omega)
+    exact this
+
+/-- exact when the interval divides 1 (`interval = 1/n`, `n ≥ 1` exactly representable, e.g. powers of two) -/
+theorem floatLen_eq_count_of_dvd (num den : Nat) (h : 0 < num) (hd : num ∣ den) : floatLen num den = count num den := by
+  obtain ⟨c, rfl⟩ := hd
+  have hc : count num (num * c) = c := by
+    unfold count
+    have : num * c + num - 1 = num - 1 + c * num := by
+      rw [Nat.mul_comm num c]; omega
+    rw [this, Nat.add_mul_div_right _ _ h, Nat.div_eq_of_lt (by omega)]; omega
+  have hex : ∀ s, roundAt num (num * c) s = c * 2 ^ s := by
+    intro s
+    unfold roundAt
+    have e : num * c * 2 ^ s = c * 2 ^ s * num := by ring
+    have hn : ¬ (0 = num) := by omega
+    simp only [e, Nat.mul_mod_left, Nat.mul_div_cancel _ h]
+    simp [hn]
+  rw [hc]
+  unfold floatLen
+  have e1 : (rn53 num (num * c)).1 = roundAt num (num * c) (rn53 num (num * c)).2 := rfl
+  rw [e1, hex]
+  exact le_antisymm (ceilShift_le_of _ _ _ (le_refl _)) (le_ceilShift_of _ _ _ (le_refl _))
+
 /-- **Sample count**: `(N-1)·k + 1` samples for `N ≥ 1` points and `k ≥ 2` grid values per unit step. -/
 theorem chspline_length (N kk : Nat) (interval : ℝ) (p : Nat → ℝ) (hN : 1 ≤ N) (hk : 2 ≤ kk) :
     (chspline N kk interval p).length = (N - 1) * kk + 1 := by
@@ -237,6 +288,116 @@ theorem bsplineAt_congr (eps : ℝ) (P P' : Nat → SE3 ℝ) (i : Nat) (u : ℝ)
   rw [h i (by omega) (by omega), h (i + 1) (by omega) (by omega), h (i + 2) (by omega) (by omega),
     h (i + 3) (by omega) (by omega)]
 
+/-- **The underlying cubic B-spline basis** (pass 3): the differences of the cumulative weights,
+`b₀ = 1 - w₁`, `b₁ = w₁ - w₂`, `b₂ = w₂ - w₃`, `b₃ = w₃`, are the uniform cubic B-spline basis functions; they are
+non-negative on `[0,1]` and sum to one (partition of unity) — for every segment, hence every number of control poses. -/
+theorem bw_partition_of_unity (u : ℝ) (h0 : 0 ≤ u) (h1 : u ≤ 1) :
+    (1 - bw1 u = (1 - u) ^ 3 / 6) ∧ (bw1 u - bw2 u = (4 - 6 * u ^ 2 + 3 * u ^ 3) / 6) ∧
+    (bw2 u - bw3 u = (1 + 3 * u + 3 * u ^ 2 - 3 * u ^ 3) / 6) ∧ (bw3 u = u ^ 3 / 6) ∧
+    0 ≤ 1 - bw1 u ∧ 0 ≤ bw1 u - bw2 u ∧ 0 ≤ bw2 u - bw3 u ∧ 0 ≤ bw3 u ∧
+    (1 - bw1 u) + (bw1 u - bw2 u) + (bw2 u - bw3 u) + bw3 u = 1 := by
+  rw [bw1_cubic, bw2_cubic, bw3_cubic]
+  simp only
+  have hu : 0 ≤ 1 - u := by linarith
+  refine ⟨by ring, by ring, by ring, by ring, ?_, ?_, ?_, ?_, by ring⟩
+  · have : 1 - (5 / 6 + 1 / 2 * u + -1 / 2 * u ^ 2 + 1 / 6 * u ^ 3) = (1 - u) ^ 3 / 6 := by ring
+    rw [this]; positivity
+  · have : 5 / 6 + 1 / 2 * u + -1 / 2 * u ^ 2 + 1 / 6 * u ^ 3 - (1 / 6 + 1 / 2 * u + 1 / 2 * u ^ 2 + -1 / 3 * u ^ 3)
+        = (1 + 3 * (1 - u) * (1 + u * (1 - u))) / 6 := by ring
+    rw [this]
+    have : 0 ≤ u * (1 - u) := mul_nonneg h0 hu
+    have : 0 ≤ (1 - u) * (1 + u * (1 - u)) := mul_nonneg hu (by linarith)
+    linarith
+  · have : 1 / 6 + 1 / 2 * u + 1 / 2 * u ^ 2 + -1 / 3 * u ^ 3 - (0 + 0 * u + 0 * u ^ 2 + 1 / 6 * u ^ 3)
+        = (1 + 3 * u + 3 * u ^ 2 * (1 - u)) / 6 := by ring
+    rw [this]
+    have : 0 ≤ u ^ 2 * (1 - u) := mul_nonneg (sq_nonneg u) hu
+    linarith
+  · have : (0 : ℝ) + 0 * u + 0 * u ^ 2 + 1 / 6 * u ^ 3 = u ^ 3 / 6 := by ring
+    rw [this]; positivity
+
+/-- the cumulative weights are ordered `1 ≥ w₁ ≥ w₂ ≥ w₃ ≥ 0` on `[0,1]` -/
+theorem bw_ordered (u : ℝ) (h0 : 0 ≤ u) (h1 : u ≤ 1) : bw3 u ≥ 0 ∧ bw2 u ≥ bw3 u ∧ bw1 u ≥ bw2 u ∧ 1 ≥ bw1 u := by
+  obtain ⟨_, _, _, _, a, b, c, d, _⟩ := bw_partition_of_unity u h0 h1
+  exact ⟨d, by linarith, by linarith, by linarith⟩
+
+/-- first and second derivatives of the cumulative weights (every `u`) -/
+theorem bw_hasDerivAt (u : ℝ) :
+    HasDerivAt bw1 ((1 - u) ^ 2 / 2) u ∧ HasDerivAt bw2 ((1 + 2 * u - 2 * u ^ 2) / 2) u ∧ HasDerivAt bw3 (u ^ 2 / 2) u ∧
+    HasDerivAt (fun v : ℝ => (1 - v) ^ 2 / 2) (u - 1) u ∧ HasDerivAt (fun v : ℝ => (1 + 2 * v - 2 * v ^ 2) / 2) (1 - 2 * u) u ∧
+    HasDerivAt (fun v : ℝ => v ^ 2 / 2) u u := by
+  refine ⟨?_, ?_, ?_, ?_, ?_, ?_⟩
+  · rw [bw1_cubic]; convert cubic_hasDerivAt (5 / 6) (1 / 2) (-1 / 2) (1 / 6) u using 1; ring
+  · rw [bw2_cubic]; convert cubic_hasDerivAt (1 / 6) (1 / 2) (1 / 2) (-1 / 3) u using 1; ring
+  · rw [bw3_cubic]; convert cubic_hasDerivAt 0 0 0 (1 / 6) u using 1; ring
+  · have := quad_hasDerivAt (1 / 2) (-1) (1 / 2) u
+    convert this using 1
+    · funext v; ring
+    · ring
+  · have := quad_hasDerivAt (1 / 2) 1 (-1) u
+    convert this using 1
+    · funext v; ring
+    · ring
+  · have := quad_hasDerivAt 0 0 (1 / 2) u
+    convert this using 1
+    · funext v; ring
+    · ring
+
+/-- **C² joins of the weight functions** (pass 3). Write segment `i` with the four weights `(w₁,w₂,w₃,0)(u)` on the relative
+motions `(δ₁,δ₂,δ₃,δ₄)` and segment `i+1` with `(1,w₁,w₂,w₃)(u)` on the *same* four motions (`bsplineAt_as_four`,
+`bsplineAt_succ_as_four`). At the join the two weight 4-vectors agree in value, first and second derivative:
+`(1, 5/6, 1/6, 0)`, `(0, 1/2, 1/2, 0)`, `(0, -1, 1, 0)` — for every join, i.e. every number of control poses. -/
+theorem bw_join_C2 :
+    (bw1 (1 : ℝ) = 1 ∧ bw2 (1 : ℝ) = bw1 0 ∧ bw3 (1 : ℝ) = bw2 0 ∧ (0 : ℝ) = bw3 0) ∧
+    (((1 : ℝ) - 1) ^ 2 / 2 = 0 ∧ (1 + 2 * (1 : ℝ) - 2 * 1 ^ 2) / 2 = (1 - (0 : ℝ)) ^ 2 / 2
+      ∧ (1 : ℝ) ^ 2 / 2 = (1 + 2 * (0 : ℝ) - 2 * 0 ^ 2) / 2 ∧ (0 : ℝ) = 0 ^ 2 / 2) ∧
+    (((1 : ℝ) - 1 = 0) ∧ (1 - 2 * (1 : ℝ) = 0 - 1) ∧ ((1 : ℝ) = 1 - 2 * 0) ∧ ((0 : ℝ) = 0)) := by
+  obtain ⟨a1, b1, c1⟩ := bw_one
+  obtain ⟨a0, b0, c0⟩ := bw_zero
+  refine ⟨⟨a1, by rw [b1, a0], by rw [c1, b0], c0.symm⟩, ⟨by norm_num, by norm_num, by norm_num, by norm_num⟩,
+    ⟨by norm_num, by norm_num, by norm_num, rfl⟩⟩
+
+/-- the common map of two consecutive segments: `P₀ · Exp(a δ₁) · Exp(b δ₂) · Exp(c δ₃) · Exp(d δ₄)` -/
+noncomputable def fourPose (eps : ℝ) (P : Nat → SE3 ℝ) (i : Nat) (a b c d : ℝ) : SE3 ℝ :=
+  SE3Mul (P i) (SE3Mul (SE3Mul (SE3Mul (se3Exp eps (scale (delta eps (P i) (P (i + 1))) a))
+    (se3Exp eps (scale (delta eps (P (i + 1)) (P (i + 2))) b))) (se3Exp eps (scale (delta eps (P (i + 2)) (P (i + 3))) c)))
+    (se3Exp eps (scale (delta eps (P (i + 3)) (P (i + 4))) d)))
+
+/-- segment `i` is the common map at weights `(w₁, w₂, w₃, 0)` -/
+theorem bsplineAt_as_four (eps : ℝ) (heps : 0 ≤ eps) (P : Nat → SE3 ℝ) (i : Nat) (u : ℝ) :
+    bsplineAt eps P i u = fourPose eps P i (bw1 u) (bw2 u) (bw3 u) 0 := by
+  unfold bsplineAt segPose fourPose
+  rw [scale_zero_right, se3Exp_zero eps heps, SE3_mul_one]
+
+/-- segment `i+1` is (as a transformation) the common map at weights `(1, w₁, w₂, w₃)`, given `Exp(Log D) ≅ D` for
+`D = Pᵢ⁻¹Pᵢ₊₁` and validity of the three exponentials that are re-associated -/
+theorem bsplineAt_succ_as_four (eps : ℝ) (P : Nat → SE3 ℝ) (i : Nat) (u : ℝ)
+    (h0 : SE3.Valid (P i)) (h1 : SE3.Valid (P (i + 1)))
+    (hEL : SE3Equiv (se3Exp eps (delta eps (P i) (P (i + 1)))) (SE3Mul (SE3Inv (P i)) (P (i + 1))))
+    (hA : SE3.Valid (se3Exp eps (scale (delta eps (P (i + 1)) (P (i + 2))) (bw1 u))))
+    (hB : SE3.Valid (se3Exp eps (scale (delta eps (P (i + 2)) (P (i + 3))) (bw2 u)))) :
+    SE3Equiv (fourPose eps P i 1 (bw1 u) (bw2 u) (bw3 u)) (bsplineAt eps P (i + 1) u) := by
+  unfold bsplineAt segPose fourPose
+  rw [scale_one]
+  set D := SE3Mul (SE3Inv (P i)) (P (i + 1)) with hD
+  set A := se3Exp eps (scale (delta eps (P (i + 1)) (P (i + 2))) (bw1 u))
+  set B := se3Exp eps (scale (delta eps (P (i + 2)) (P (i + 3))) (bw2 u))
+  set C := se3Exp eps (scale (delta eps (P (i + 3)) (P (i + 4))) (bw3 u))
+  have hDv : SE3.Valid D := SE3_valid_mul _ _ (SE3_valid_inv _ h0) h1
+  have e1 : i + 1 + 1 = i + 2 := by omega
+  have e2 : i + 1 + 2 = i + 3 := by omega
+  have e3 : i + 1 + 3 = i + 4 := by omega
+  simp only [e1, e2, e3]
+  have step1 : SE3Equiv (SE3Mul (P i) (SE3Mul (SE3Mul (SE3Mul (se3Exp eps (delta eps (P i) (P (i + 1)))) A) B) C))
+      (SE3Mul (P i) (SE3Mul (SE3Mul (SE3Mul D A) B) C)) :=
+    SE3Equiv.mul_left _ (SE3Equiv.mul_right (SE3Equiv.mul_right (SE3Equiv.mul_right hEL A) B) C)
+  have hDA : SE3.Valid (SE3Mul D A) := SE3_valid_mul _ _ hDv hA
+  have hAB : SE3.Valid (SE3Mul A B) := SE3_valid_mul _ _ hA hB
+  have step2 : SE3Mul (P i) (SE3Mul (SE3Mul (SE3Mul D A) B) C) = SE3Mul (P (i + 1)) (SE3Mul (SE3Mul A B) C) := by
+    rw [SE3_mul_assoc D A B hDv hA, SE3_mul_assoc D (SE3Mul A B) C hDv hAB, ← SE3_mul_assoc (P i) D _ h0 hDv, hD,
+      ← SE3_mul_assoc (P i) _ _ h0 (SE3_valid_inv _ h0), SE3_mul_inv _ h0, SE3_one_mul]
+  exact step1.trans (SE3Equiv.of_eq step2)
+
 /-- **Constant-twist reproduction, one segment.** If the three relative motions of a segment have the same
 logarithm `ξ` and `Exp` is additive on the three weighted multiples of `ξ` (one-parameter-subgroup law — C01;
 proved below for the closed-form branch as `se3Exp_add`), the pose at parameter `u` is `Pᵢ·Exp((1+u)ξ)`:
@@ -274,6 +435,49 @@ theorem exp_one_parameter_closed (eps : ℝ) (xi : se3 ℝ) (a b : ℝ) (h0 : 0 
     (hA : eps < a * xi.phi.norm) (hB : eps < b * xi.phi.norm) :
     SE3Mul (se3Exp eps (scale xi a)) (se3Exp eps (scale xi b)) = se3Exp eps (scale xi (a + b)) :=
   se3Exp_add eps xi a b h0 ha hb hA hB
+
+/-- **One-parameter law on the Taylor branch, rotation part** (pass 3 — the branch excluded from
+`exp_one_parameter_closed`): when all three angles `aθ, bθ, (a+b)θ` are at most `eps ≤ 1` (so the code uses its truncated
+series three times), `Exp(aφ)·Exp(bφ)` and `Exp((a+b)φ)` differ by at most `eps⁶/700` in the scalar part and `eps⁷/5000` in
+the norm of the vector part — the law holds up to the truncation order, for every `φ`, `a, b ≥ 0`. -/
+theorem so3Exp_add_taylor (eps : ℝ) (φ : Vec3 ℝ) (a b : ℝ) (ha : 0 ≤ a) (hb : 0 ≤ b) (h1 : eps ≤ 1)
+    (hAB : (a + b) * φ.norm ≤ eps) :
+    |((so3Exp eps (φ.smul a)).mul (so3Exp eps (φ.smul b))).w - (so3Exp eps (φ.smul (a + b))).w| ≤ eps ^ 6 / 700 ∧
+    (((so3Exp eps (φ.smul a)).mul (so3Exp eps (φ.smul b))).vec.sub (so3Exp eps (φ.smul (a + b))).vec).norm ≤ eps ^ 7 / 5000 := by
+  have hθ := Vec3.norm_nonneg φ
+  set θ := φ.norm with hθdef
+  have hu : 0 ≤ a * θ := mul_nonneg ha hθ
+  have hv : 0 ≤ b * θ := mul_nonneg hb hθ
+  have hsum : a * θ + b * θ = (a + b) * θ := by ring
+  have hs : a * θ + b * θ ≤ 1 := by rw [hsum]; linarith
+  have hA : ¬ eps < a * θ := by apply not_lt.mpr; nlinarith
+  have hB : ¬ eps < b * θ := by apply not_lt.mpr; nlinarith
+  have hC : ¬ eps < (a + b) * θ := not_lt.mpr hAB
+  rw [so3Exp_smul_taylor eps φ a ha hA, so3Exp_smul_taylor eps φ b hb hB,
+    so3Exp_smul_taylor eps φ (a + b) (by linarith) hC, axisQuat_mul, ← Vec3.norm_sq, ← hθdef]
+  have hs0 : 0 ≤ a * θ + b * θ := by linarith
+  have hp6 : (a * θ + b * θ) ^ 6 ≤ eps ^ 6 := pow_le_pow_left₀ hs0 (by rw [hsum]; exact hAB) 6
+  have hp7 : (a * θ + b * θ) ^ 7 ≤ eps ^ 7 := pow_le_pow_left₀ hs0 (by rw [hsum]; exact hAB) 7
+  constructor
+  · have := taylor_dw (a * θ) (b * θ) hu hv hs
+    have e : (axisQuat φ (tC (a * θ) * (b * tS (b * θ)) + a * tS (a * θ) * tC (b * θ))
+        (tC (a * θ) * tC (b * θ) - a * tS (a * θ) * (b * tS (b * θ)) * (θ * θ))).w
+        - (axisQuat φ ((a + b) * tS ((a + b) * θ)) (tC ((a + b) * θ))).w
+        = tC (a * θ) * tC (b * θ) - a * θ * (b * θ) * tS (a * θ) * tS (b * θ) - tC (a * θ + b * θ) := by
+      unfold axisQuat; simp only [hsum]; ring
+    rw [e]; linarith
+  · have hvec : ((axisQuat φ (tC (a * θ) * (b * tS (b * θ)) + a * tS (a * θ) * tC (b * θ))
+        (tC (a * θ) * tC (b * θ) - a * tS (a * θ) * (b * tS (b * θ)) * (θ * θ))).vec.sub
+        (axisQuat φ ((a + b) * tS ((a + b) * θ)) (tC ((a + b) * θ))).vec)
+        = φ.smul (tC (a * θ) * (b * tS (b * θ)) + a * tS (a * θ) * tC (b * θ) - (a + b) * tS ((a + b) * θ)) := by
+      unfold axisQuat Quat.vec Vec3.sub Vec3.smul; ext <;> simp only [] <;> ring
+    rw [hvec, norm_smul_abs, ← hθdef]
+    have := taylor_dv (a * θ) (b * θ) hu hv hs
+    have e : |tC (a * θ) * (b * tS (b * θ)) + a * tS (a * θ) * tC (b * θ) - (a + b) * tS ((a + b) * θ)| * θ
+        = |a * θ * tS (a * θ) * tC (b * θ) + b * θ * tS (b * θ) * tC (a * θ) - (a * θ + b * θ) * tS (a * θ + b * θ)| := by
+      rw [← abs_of_nonneg hθ, ← abs_mul, abs_of_nonneg hθ]
+      congr 1; simp only [hsum]; ring
+    rw [e]; linarith
 
 /-- **`Log(Exp ξ) = ξ`** for the modelled functions: `eps < ‖φ‖ < π`, generic regime (`sin(θ/2), cos(θ/2) > eps`). -/
 theorem log_exp_closed (eps : ℝ) (xi : se3 ℝ) (h0 : 0 ≤ eps) (hθ : eps < xi.phi.norm) (hπ : xi.phi.norm < Real.pi)
@@ -453,6 +657,11 @@ theorem bspline_extrapolate_last_closed (eps : ℝ) (heps : 0 ≤ eps) (N : Nat)
 
 /-! ### non-vacuity (spline part) -/
 
+/-- the rounding case is real: for the double `1/3 = 6004799503160661·2⁻⁵⁴` the float length is 3, the rational count 4 -/
+example : floatLen 6004799503160661 18014398509481984 = 3 ∧ count 6004799503160661 18014398509481984 = 4 := by decide +kernel
+example : floatLen 3602879701896397 36028797018963968 = 10 ∧ count 3602879701896397 36028797018963968 = 10 := by decide +kernel
+
+
 /-- the hypotheses of `bsplineAt_const_twist_closed` are satisfiable: `eps = 10⁻³`, `ξ = (τ; φ)` with `‖φ‖ = 1`, `u = 1/2` -/
 example : let eps : ℝ := 1 / 1000
     let xi : se3 ℝ := ⟨⟨1, 2, 3⟩, ⟨1, 0, 0⟩⟩
@@ -601,6 +810,14 @@ theorem stats_zero (es : List ℝ) (h : ∀ e ∈ es, e = 0) :
     rw [List.map_replicate, sqsum_eq, List.map_replicate]; simp
   simp only [Stats.toList, stats, ha, hsq, hsum, hdev, hmax, hmin, hmed]
   simp
+
+/-- **Option handling** (pass 3): `align`/`scale` take precedence over `origin`; `scale` alone already aligns (with scale);
+`with_scale` is exactly the `scale` flag. -/
+theorem modeOfFlags_spec (align scale origin : Bool) :
+    ((align = true ∨ scale = true) → modeOfFlags align scale origin = (.svd, scale)) ∧
+    (align = false → scale = false → origin = true → modeOfFlags align scale origin = (.origin, false)) ∧
+    (align = false → scale = false → origin = false → modeOfFlags align scale origin = (.none, false)) := by
+  cases align <;> cases scale <;> cases origin <;> simp [modeOfFlags]
 
 /-! ## association -/
 
@@ -851,6 +1068,63 @@ theorem ape_align_invariant (eps atol : ℝ) (alignFn : List (Vec3 ℝ) → List
     obtain ⟨h1, h2⟩ := hc a h
     rw [apeCore_align_invariant eps atol alignFn et rigid S a.rp a.ep hS hSr h1 h2]
 
+/-- **APE is unchanged when BOTH trajectories are moved by the same rigid motion — for every alignment mode** (pass 3):
+none, `origin`, and `svdstf` (rigid or with scale; hypothesis: the C17 contract at the original and at the moved point
+sets). The per-pose error lists are equal; all lengths, all error types. -/
+theorem apeCore_common_left_invariant (eps atol : ℝ) (alignFn : List (Vec3 ℝ) → List (Vec3 ℝ) → Sim3 ℝ) (et : EType)
+    (mode : AlignMode) (G : SE3 ℝ) (hG : SE3.Valid G) (rp ep : List (SE3 ℝ)) (hR : ∀ r ∈ rp, SE3.Valid r)
+    (hE : ∀ e ∈ ep, SE3.Valid e)
+    (hsvd : mode = .svd → ∃ rigid : Bool,
+      AlignOK rigid (alignFn (ep.map (·.t)) (rp.map (·.t))) (ep.map (·.t)) (rp.map (·.t)) ∧
+      AlignOK rigid (alignFn ((ep.map (·.t)).map (SE3Act G)) ((rp.map (·.t)).map (SE3Act G)))
+        ((ep.map (·.t)).map (SE3Act G)) ((rp.map (·.t)).map (SE3Act G))) :
+    apeCore eps atol alignFn et mode (rp.map (SE3Mul G)) (ep.map (SE3Mul G)) = apeCore eps atol alignFn et mode rp ep := by
+  unfold apeCore
+  cases mode with
+  | none =>
+    have h1 : Sim3.Valid (Sim3one : Sim3 ℝ) := ⟨SO3_valid_one, by simp [Sim3one]⟩
+    apply apeCore_left_of eps atol et G hG _ _ h1 rp ep hE
+    intro e _
+    simp only [transOf, alignPose_one]
+    exact Spline.SE3Equiv.refl _
+  | origin =>
+    cases rp with
+    | nil => simp
+    | cons r0 rp =>
+      cases ep with
+      | nil => simp
+      | cons e0 ep =>
+        have hr0 := hR r0 (by simp)
+        have he0 := hE e0 (by simp)
+        have hGr0 := SE3_valid_mul G r0 hG hr0
+        have hGe0 := SE3_valid_mul G e0 hG he0
+        have hT : Sim3.Valid (transOf alignFn .origin (r0 :: rp) (e0 :: ep)) := by
+          simp only [transOf, originT, List.headD_cons]
+          exact ⟨SE3_valid_mul _ _ hr0 (SE3_valid_inv _ he0), by simp⟩
+        apply apeCore_left_of eps atol et G hG _ _ hT (r0 :: rp) (e0 :: ep) hE
+        intro e _
+        apply Spline.SE3Equiv.of_eq
+        simp only [transOf, originT, List.map_cons, List.headD_cons]
+        rw [show (k 1 : ℝ) = 1 from by simp, alignPose_rigid, alignPose_rigid,
+          SE3_mul_assoc _ _ _ hGr0 (SE3_valid_inv _ hGe0), Spline.SE3_rel_left_invariant G e0 e hG he0,
+          SE3_mul_assoc G r0 _ hG hr0, SE3_mul_assoc r0 _ _ hr0 (SE3_valid_inv _ he0)]
+  | svd =>
+    obtain ⟨rigid, h1, h2⟩ := hsvd rfl
+    have hP : (ep.map (SE3Mul G)).map (·.t) = (ep.map (·.t)).map (SE3Act G) := map_t_left G ep
+    have hQ : (rp.map (SE3Mul G)).map (·.t) = (rp.map (·.t)).map (SE3Act G) := map_t_left G rp
+    simp only [transOf, hP, hQ]
+    have hconj := align_conj_rigid rigid G hG _ _ _ _ h1 h2
+    have hGs := rigidSim_valid G hG
+    apply apeCore_left_of eps atol et G hG _ _ h1.valid rp ep hE
+    intro e _
+    have e1 : SE3Mul G e = alignPose (rigidSim G) e := (alignPose_rigid G e).symm
+    have e2 : SE3Mul G (alignPose (alignFn (ep.map (·.t)) (rp.map (·.t))) e)
+        = alignPose (rigidSim G) (alignPose (alignFn (ep.map (·.t)) (rp.map (·.t))) e) := (alignPose_rigid G _).symm
+    rw [e2, alignPose_mul _ _ e hGs h1.valid]
+    refine (alignPose_congr hconj (SE3Mul G e)).trans (Spline.SE3Equiv.of_eq ?_)
+    rw [e1, alignPose_mul _ _ e (Sim3_valid_mul _ _ (Sim3_valid_mul _ _ hGs h1.valid) (Sim3_valid_inv _ hGs)) hGs,
+      Sim3_mul_assoc _ _ _ (Sim3_valid_mul _ _ hGs h1.valid) (Sim3_valid_inv _ hGs), Sim3_inv_mul _ hGs, Sim3_mul_one]
+
 /-! ## RPE: invariance under left multiplication, zero for identical trajectories -/
 
 /-- **RPE is unchanged by left-multiplying either trajectory (or both, by different poses) by a fixed pose** —
@@ -969,6 +1243,31 @@ theorem rpeCore_identical_zero (eps atol : ℝ) (heps : 0 ≤ eps) (hatol : atol
       rw [← hst]
       exact SE3_valid_mul _ _ (SE3_valid_inv _ (hv a (List.mem_of_getElem? h1))) (hv b (List.mem_of_getElem? h2))
 
+/-- **RPE of identical trajectories is zero for `svdstf` alignment too** (pass 3; completes `rpeCore_identical_zero`):
+whenever the alignment returned for identical point sets is the identity as a transformation (forced by the contract,
+`alignOK_identity`), every error type, every pairing. -/
+theorem rpeCore_identical_zero_svd (eps atol : ℝ) (heps : 0 ≤ eps) (hatol : atol ≤ 1)
+    (alignFn : List (Vec3 ℝ) → List (Vec3 ℝ) → Sim3 ℝ) (et : EType) (pm : PairMode) (dN : Nat) (delta rtol : ℝ)
+    (all rpair : Bool) (rp : List (SE3 ℝ)) (hv : ∀ r ∈ rp, SE3.Valid r)
+    (hsvd : Sim3Equiv (alignFn (rp.map (·.t)) (rp.map (·.t))) Sim3one) (errs : List ℝ)
+    (h : rpeCore eps atol alignFn et .svd pm dN delta rtol all rpair rp rp = some errs) :
+    (stats errs).toList = [0, 0, 0, 0, 0, 0, 0] := by
+  apply stats_zero
+  rw [rpeCore_eq_tail] at h
+  unfold rpeTail at h
+  simp only [] at h
+  have hf : ∀ r ∈ rp, Spline.SE3Equiv (alignPose (transOf alignFn .svd rp rp) r) r := by
+    intro r _
+    have := alignPose_congr hsvd r
+    rw [alignPose_one] at this
+    exact this
+  split_ifs at h
+  all_goals
+    simp only [Option.some.injEq] at h
+    intro e he
+    rw [← h] at he
+    exact relPoses_zero eps atol heps hatol et rp hv _ hf _ e he
+
 /-! ## geodesic loss -/
 
 /-- **Symmetry**: `geodesic_loss(x, y) = geodesic_loss(y, x)` item-wise — for all quaternions, every regime. -/
@@ -996,6 +1295,27 @@ theorem geodesic_is_angle (eps : ℝ) (h0 : 0 ≤ eps) (x y : Quat ℝ) (hx : SO
     trace_SO3matrix _ hq]
   ring
 
+/-- `tr(AᵀB) = tr(ABᵀ)`: the angle of `R₁ᵀR₂` and of `R₁R₂ᵀ` have the same cosine -/
+theorem trace_transpose_mul (A B : Mat3 ℝ) : (A.transpose.mul B).trace = (A.mul B.transpose).trace := by
+  lie_unfold; ring
+
+/-- **The loss is the angle of `R₁ᵀR₂`**: in the generic regime `geodesic = arccos((tr(R(x)ᵀR(y)) − 1)/2)` — the principal
+rotation angle in `[0, π]` of the relative rotation (pass 3: `arccos` form, transpose on either side). -/
+theorem geodesic_eq_arccos (eps : ℝ) (h0 : 0 ≤ eps) (x y : Quat ℝ) (hx : SO3.Valid x) (hy : SO3.Valid y)
+    (hv : eps < (x.mul y.conj).vec.norm) (hw : eps < |(x.mul y.conj).w|) :
+    geodesic eps x y = Real.arccos ((((SO3matrix x).transpose.mul (SO3matrix y)).trace - 1) / 2) := by
+  have hcos := geodesic_is_angle eps h0 x y hx hy hv hw
+  rw [trace_transpose_mul, ← hcos]
+  have hnn : 0 ≤ geodesic eps x y := Vec3.norm_nonneg _
+  have hle : geodesic eps x y ≤ Real.pi := by
+    unfold geodesic
+    rw [SO3Log_norm_generic eps _ h0 hv hw]
+    have h1 := Real.arctan_lt_pi_div_two ((x.mul y.conj).vec.norm / (x.mul y.conj).w)
+    have h2 := Real.neg_pi_div_two_lt_arctan ((x.mul y.conj).vec.norm / (x.mul y.conj).w)
+    have : |Real.arctan ((x.mul y.conj).vec.norm / (x.mul y.conj).w)| ≤ Real.pi / 2 := abs_le.mpr ⟨by linarith, by linarith⟩
+    linarith
+  exact (Real.arccos_cos hnn hle).symm
+
 /-- at the antipodal regime (`|w| ≤ eps < |v|`) the loss is exactly `π` -/
 theorem geodesic_pi_regime (eps : ℝ) (h0 : 0 ≤ eps) (x y : Quat ℝ)
     (hv : eps < (x.mul y.conj).vec.norm) (hw : ¬ eps < |(x.mul y.conj).w|) : geodesic eps x y = Real.pi := by
@@ -1005,6 +1325,52 @@ theorem geodesic_pi_regime (eps : ℝ) (h0 : 0 ≤ eps) (x y : Quat ℝ)
   simp only [lt_real, hv, decide_true, if_true, sabs_real, hw, decide_false, Bool.false_eq_true, if_false, pi_real]
   rw [abs_div, abs_mul, spm_abs, abs_of_pos hvn, abs_of_pos Real.pi_pos]
   field_simp
+
+/-- in the antipodal regime the returned `π` differs from the true angle only through `cos`: `|cos π − (tr−1)/2| ≤ 2·eps²` -/
+theorem geodesic_pi_regime_angle (eps : ℝ) (h0 : 0 ≤ eps) (x y : Quat ℝ) (hx : SO3.Valid x) (hy : SO3.Valid y)
+    (hv : eps < (x.mul y.conj).vec.norm) (hw : ¬ eps < |(x.mul y.conj).w|) :
+    |Real.cos (geodesic eps x y) - (((SO3matrix x).transpose.mul (SO3matrix y)).trace - 1) / 2| ≤ 2 * eps ^ 2 := by
+  have hq : (x.mul y.conj).normSq = 1 := SO3_valid_mul x y.conj hx (SO3_valid_inv y hy)
+  rw [geodesic_pi_regime eps h0 x y hv hw, Real.cos_pi, trace_transpose_mul, ← SO3_matrix_conj,
+    ← SO3_matrix_mul x y.conj hx (SO3_valid_inv y hy), trace_SO3matrix _ hq]
+  have hwle : |(x.mul y.conj).w| ≤ eps := not_lt.mp hw
+  have hsq : (x.mul y.conj).w * (x.mul y.conj).w ≤ eps ^ 2 := by
+    rw [← abs_mul_abs_self]; nlinarith [abs_nonneg (x.mul y.conj).w]
+  have hnn : 0 ≤ (x.mul y.conj).w * (x.mul y.conj).w := mul_self_nonneg _
+  rw [abs_le]; constructor <;> nlinarith
+
+/-- **Series branch** (`|v| ≤ eps`; pass 3 — completes the three regimes of "the loss is the rotation angle"): with
+`r = |v|/|w|` the true rotation angle of `R(x)ᵀR(y)` is `θ* = 2·arctan r` (`cos θ* = (tr − 1)/2`, `θ* ∈ [0, π)`), and the
+returned value satisfies `loss ≤ θ* ≤ loss + (2/5)·r⁵` — an error below `eps⁵` radians. -/
+theorem geodesic_small_regime (eps : ℝ) (h1 : eps ≤ 1 / 2) (x y : Quat ℝ) (hx : SO3.Valid x) (hy : SO3.Valid y)
+    (hv : ¬ eps < (x.mul y.conj).vec.norm) :
+    geodesic eps x y ≤ 2 * Real.arctan ((x.mul y.conj).vec.norm / |(x.mul y.conj).w|) ∧
+    2 * Real.arctan ((x.mul y.conj).vec.norm / |(x.mul y.conj).w|)
+      ≤ geodesic eps x y + 2 / 5 * ((x.mul y.conj).vec.norm / |(x.mul y.conj).w|) ^ 5 ∧
+    Real.cos (2 * Real.arctan ((x.mul y.conj).vec.norm / |(x.mul y.conj).w|))
+      = (((SO3matrix x).transpose.mul (SO3matrix y)).trace - 1) / 2 := by
+  have hq : (x.mul y.conj).normSq = 1 := SO3_valid_mul x y.conj hx (SO3_valid_inv y hy)
+  obtain ⟨hn, hw34⟩ := SO3Log_norm_small eps _ h1 hq hv
+  have hapos : 0 < |(x.mul y.conj).w| := by linarith
+  have hr0 : 0 ≤ (x.mul y.conj).vec.norm / |(x.mul y.conj).w| := div_nonneg (Vec3.norm_nonneg _) hapos.le
+  obtain ⟨b1, b2⟩ := arctan_series_bound _ hr0
+  unfold geodesic
+  rw [hn]
+  refine ⟨by linarith, by linarith, ?_⟩
+  rw [trace_transpose_mul, ← SO3_matrix_conj, ← SO3_matrix_mul x y.conj hx (SO3_valid_inv y hy), trace_SO3matrix _ hq,
+    Real.cos_two_mul, Real.cos_arctan]
+  have hrel := quat_vn_w _ hq
+  have hane : |(x.mul y.conj).w| ≠ 0 := ne_of_gt hapos
+  have h1r : 1 + ((x.mul y.conj).vec.norm / |(x.mul y.conj).w|) ^ 2 = 1 / ((x.mul y.conj).w * (x.mul y.conj).w) := by
+    rw [div_pow, sq_abs]
+    have hwne : (x.mul y.conj).w ≠ 0 := by
+      intro h; rw [h, abs_zero] at hapos; exact lt_irrefl _ hapos
+    field_simp; nlinarith
+  have hpos : 0 < 1 + ((x.mul y.conj).vec.norm / |(x.mul y.conj).w|) ^ 2 := by positivity
+  rw [div_pow, one_pow, Real.sq_sqrt hpos.le, h1r]
+  have hwne : (x.mul y.conj).w ≠ 0 := by
+    intro h; rw [h, abs_zero] at hapos; exact lt_irrefl _ hapos
+  field_simp; ring
 
 theorem geodesicAll_symm (eps : ℝ) (xs ys : List (Quat ℝ)) : geodesicAll eps xs ys = geodesicAll eps ys xs := by
   unfold geodesicAll
